@@ -12,8 +12,23 @@ CLAUSE_PROPS = {"steps": ["C18"], "window_short": ["C18"], "obs": ["C18"], "shap
                 "quotes": ["C18"], "rate": ["C18"], "construct": ["C18"], "table": []}
 
 
+_CLK = {"intraday": False}
+
+
 def D(d):
+    """index number -> stamp.  Daily tables: calendar day d.  Intraday tables: even numbers are on the hour, odd numbers 30 s
+    past the hour before, all on one business day (2 -> 09:00:00, 3 -> 09:00:30, 4 -> 10:00:00 ...)"""
+    if _CLK["intraday"]:
+        k = int(d)
+        return DAY1 + timedelta(hours=8 + k // 2, seconds=30 * (k % 2))
     return DAY1 + timedelta(days=int(d) - 1)
+
+
+def NUM(t):
+    if _CLK["intraday"]:
+        dt = t - DAY1 - timedelta(hours=8)
+        return 2 * int(dt.total_seconds() // 3600) + (1 if int(dt.total_seconds()) % 3600 else 0)
+    return int((t - DAY1).days) + 1
 
 
 def holidays_in(ndays, calendar="NYSE"):
@@ -31,7 +46,7 @@ def model_small(ndays, hol, windows, strides, folds):
             "YRanges": tlagen.Raw("{<<1, %d>>}" % ndays),
             "Folds": tlagen.Raw("{" + ", ".join("<<%d, %d>>" % f for f in folds) + "}")}
     inv = ["StepsDef", "NoStepBeforeWindow", "ObsShape"]
-    return tlagen.mc_module("MC", "Tabular", defs), tlagen.cfg(defs, {"NDays": ndays}, invariants=inv), inv
+    return tlagen.mc_module("MC", "Tabular", defs), tlagen.cfg(defs, {"NDays": ndays, "Carrier": "weekdays"}, invariants=inv), inv
 
 
 def model(tier, ndays, hol):
@@ -48,7 +63,7 @@ def model(tier, ndays, hol):
     # price tables that end (or start) exactly on an exchange holiday are included
     yr = [(1, ndays), (3, ndays - 1), (1, ndays - 5)] + [(1, h) for h in hs[-1:]] + [(h, ndays) for h in hs[:1]]
     defs["YRanges"] = tlagen.Raw("{" + ", ".join("<<%d, %d>>" % r for r in yr) + "}")
-    plain = {"NDays": ndays}
+    plain = {"NDays": ndays, "Carrier": "weekdays"}
     inv = ["StepsDef", "NoStepBeforeWindow", "ObsShape"]
     return tlagen.mc_module("MC", "Tabular", defs), tlagen.cfg(defs, plain, invariants=inv), inv
 
@@ -80,6 +95,8 @@ def build(p, transformer=None, X=None, Y=None, rate=None, transformer_end=None, 
     fold = tuple(p.get("fold") or (0, 0))
     if fold != (0, 0):
         kw["folds"] = {"training-set": [D(1), D(fold[0]) - timedelta(seconds=1)], "test-set": [D(fold[0]), D(fold[1])]}
+    if _CLK["intraday"]:
+        kw["latency"] = 60.0          # feature rows stamped 30 s after a price stamp fall inside the latency window
     return TradingEnvXY(X, Y, transformer=transformer, window=p["w"], stride=(p["s"] or None), spread=spread, rate=rate,
                         steps_delay=0, margin=0.0, fee=0.0, markup=0.0, calendar=calendar, **kw)
 
@@ -88,6 +105,7 @@ def replay_chunk(ctx, texts):
     from . import impl
     out = {"n": 0, "ops": 0, "fails": [], "classes": {}, "sample": None}
     trs = [None, "z-score", "yeo-johnson"]
+    _CLK["intraday"] = bool(ctx.get("intraday"))
     for text in texts:
         s = tlaval.parse_state(text)
         p, o = s["p"], s["out"]
@@ -104,7 +122,7 @@ def replay_chunk(ctx, texts):
             bad = ("construct", "TradingEnvXY could not be built: %r" % (env,))
         else:
             X = env.X
-            px = [int((t - DAY1).days) + 1 for t in X.index]
+            px = [NUM(t) for t in X.index]
             if px != list(o["px"]):
                 out["fails"].append({"clause": "table", "key": "table/index", "detail": "published table index %s, model %s" % (px[:6], list(o["px"])[:6]), "case": case})
             Xv = X.to_numpy()
@@ -115,7 +133,7 @@ def replay_chunk(ctx, texts):
             shape = (len(o["rows"][0]), Xv.shape[1])
             while bad is None and r1 == "ok":
                 now = env.now()
-                day = int((now - DAY1).days) + 1
+                day = NUM(now)
                 out["ops"] += 1
                 if k >= len(o["steps"]) or day != o["steps"][k]:
                     ok_date = day in p["dy"] and day not in ctx["holidays"]
@@ -169,7 +187,7 @@ def replay_chunk(ctx, texts):
                     if val[2]:
                         # last observation of the episode
                         now = env.now()
-                        day = int((now - DAY1).days) + 1
+                        day = NUM(now)
                         if k >= len(o["steps"]) or day != o["steps"][k]:
                             if day not in p["dy"] or day in ctx["holidays"]:
                                 bad = ("steps", "last step on %s (day %d), which is %s" % (now.date(), day, "an exchange holiday" if day in ctx["holidays"] else "not a date of the price table"))
@@ -217,6 +235,16 @@ def c18(tier, seed):
     module, cfg, inv = model_small(nd, h2, {12, 5}, {4, 0}, [(0, 0), (61, 75), (64, 72)])
     explore.explore_and_replay(rep, "tabular-folds", module, cfg, ("harness.tabular_check", "replay_chunk"), {"holidays": h2},
                                owned, inv, [], chunk=2, workers=2)
+    # finer than daily: prices on the hour, feature rows on the hour and 30 s later (inside a latency of 60 s), episodes run
+    # from the first stamp and in a later fold.  Index numbers are ranks (even: on the hour, odd: 30 s past the hour before).
+    nt = 17
+    defs = {"Holidays": set(), "Windows": {1, 2, 3}, "Strides": {0, 2}, "Bounds": tlagen.Raw("{<<0, 0>>}"),
+            "MissX": tlagen.Raw("{{}, {5}, {6, 7}}"), "MissY": tlagen.Raw("{%s}" % tlagen.tla(set(range(1, nt + 1, 2)))),
+            "YRanges": tlagen.Raw("{<<2, %d>>}" % (nt - 1)), "Folds": tlagen.Raw("{<<0, 0>>, <<10, 16>>, <<8, 14>>}")}
+    inv = ["StepsDef", "NoStepBeforeWindow", "ObsShape"]
+    module, cfg = tlagen.mc_module("MC", "Tabular", defs), tlagen.cfg(defs, {"NDays": nt, "Carrier": "all"}, invariants=inv)
+    explore.explore_and_replay(rep, "tabular-intraday", module, cfg, ("harness.tabular_check", "replay_chunk"),
+                               {"holidays": set(), "intraday": True}, owned, inv, [], chunk=4, workers=2)
     # two environments with different exchange calendars in one process: each steps by its own calendar
     nd = 40
     for cal, other in (("NYSE", "LSE"), ("LSE", "NYSE")):
